@@ -81,7 +81,7 @@ theorem cnt_withGroup (d : Delim) (inner : Sp → Sp → P α) (n : Nat) (Q : α
     unfold withGroup at he
     split at he
     · split at he
-      · simp only at he
+      · (try simp only at he)
         split at he
         · rename_i hin
           cases he
@@ -94,7 +94,7 @@ theorem cnt_withGroup (d : Delim) (inner : Sp → Sp → P α) (n : Nat) (Q : α
     unfold withGroup at he
     split at he
     · split at he
-      · simp only at he
+      · (try simp only at he)
         split at he
         · cases he
         · rename_i hin
@@ -165,7 +165,7 @@ theorem ctrOnly_withGroup (d : Delim) (inner : Sp → Sp → P α) (h : ∀ a b,
     unfold withGroup at he
     split at he
     · split at he
-      · simp only at he
+      · (try simp only at he)
         split at he
         · rename_i hin
           cases he
@@ -179,7 +179,7 @@ theorem ctrOnly_withGroup (d : Delim) (inner : Sp → Sp → P α) (h : ∀ a b,
     unfold withGroup at he
     split at he
     · split at he
-      · simp only at he
+      · (try simp only at he)
         split at he
         · cases he
         · rename_i hin
